@@ -366,6 +366,26 @@ def oracle_operands():
             if abs(got - want) > 1e-9 * (1 + abs(want)):
                 return ('s has a raw Variable as coefficient vector and a repeated exponent row: after assigning the Variable, %s evaluates to '
                         '%r at %s but the numeric computation gives %r' % (name, got, x.tolist(), want))
+    # exponent rows that are nearly equal: rows that coincide only AFTER the 7-decimal rounding are one basis function; rows that differ by
+    # more than the rounding grid (0.666667 / 0.66667, 12.5 / 12.5001) are different basis functions, however close
+    y1 = so.standard_sig_monomials(1)
+    mu = cl.Variable(shape=(2,), name='op_mu')
+    mu.value = np.array([1.5, -2.0])
+    pts1 = [np.array([0.0]), np.array([0.7]), np.array([-1.3])]
+    for label, fa, fc, sa in (('rows 0.1+0.2 and 0.3 of s', [[0.0], [1.0]], [2.0, 1.0], [[0.1 + 0.2], [0.3]]),
+                              ('rows 0.666667 / 12.5 of f and 0.66667 / 12.5001 of s', [[0.666667], [12.5]], [2.0, 1.0], [[0.66667], [12.5001]]),
+                              ('rows 0.3 / 1 of f and 0.30000000000000004 / 2 of s', [[0.3], [1.0]], [2.0, 1.0], [[0.1 + 0.2], [2.0]])):
+        f1 = Signomial(np.array(fa), np.array(fc))
+        s1 = Signomial(np.array(sa), mu)
+        for name, mk, sgn in (('f + s', lambda: f1 + s1, 1.0), ('s + f', lambda: s1 + f1, 1.0), ('f - s', lambda: f1 - s1, -1.0),
+                              ('Signomial.sum([f, s])', lambda: Signomial.sum([f1, s1]), 1.0)):
+            h = mk()
+            for x in pts1:
+                want = float(f1(x)) + sgn * float(np.sum(np.array([1.5, -2.0]) * np.exp(np.array(sa) @ x)))
+                got = val(h, x)
+                if abs(got - want) > 1e-7 * (1 + abs(want)):
+                    return ('%s (s has Variable coefficients with values 1.5, -2): %s evaluates to %r at %s after substituting, but substituting first '
+                            'and computing numerically gives %r (the result has %d terms)' % (label, name, got, x.tolist(), want, h.m))
     return None
 
 
